@@ -67,7 +67,8 @@ def scenario(rng, k, tier):
         for inj in range(max(rng.choice([0, 1, 2]), 1 if forced else 0)):
             snapshot("b")
             src, r_rtcp, tot, ss = rng.choice(goodlines)
-            w = rng.randrange(6)
+            w = rng.randrange(7)
+            rcap = 400
             if forced and inj == 0:
                 # a tampered packet of this very stream right after srtp_stream_set_roc, before the first authentic one
                 src, r_rtcp, tot, ss = forced[-1]
@@ -78,8 +79,11 @@ def scenario(rng, k, tier):
             elif w == 2: ref = hexb(rand_key(rng, rng.choice([0, 5, 12, 30, 60])))
             elif w == 3: ref = hexb(rtp_packet(rng.randrange(1 << 32), 7, payload=rand_key(rng, 30)))
             elif w == 4: ref = f"@{src:x}" if src != a else hexb(rand_key(rng, 20))     # replay of an older packet (maybe)
+            elif w == 6:
+                # the authentic packet just made, but into an output buffer that is too small (refused AFTER authentication)
+                src, r_rtcp, tot, ss = goodlines[-1]; ref = f"@{src:x}"; rcap = rng.choice([0, 8, 12, tot - p.trailer(not r_rtcp) - 1])
             else: ref = f"@{src:x}+{rand_key(rng, rng.choice([1, 4, 10])).hex()}"
-            L.append(pkt_op("unprotect_rtcp" if r_rtcp else "unprotect", 2, ref, cap=400, mode=rng.choice([0, 1])))
+            L.append(pkt_op("unprotect_rtcp" if r_rtcp else "unprotect", 2, ref, cap=max(rcap, 0), mode=rng.choice([1, 2] if w == 6 else [0, 1])))
             L.append("# R")
             snapshot("a")
         if ra_ok and not rtcp and rng.random() < 0.5 and (not wildcard or (seq[s] >> 16) == 0):
